@@ -156,11 +156,12 @@ def translation_invariance(run):
 
 
 def check(run, cases=None):
-    if cases is None:
-        derivative_monitors(run)
-        translation_invariance(run)
+    monitors = cases is None
     cases = cases if cases is not None else EC.gen_cases(run.tier, run.seed, with_chi2=False)
     pairs = EC.evaluate(cases, 12, 'MC_C01', run)
+    if monitors:                 # (after the model evaluation, so that the evidence of a run they abort still shows what TLC covered)
+        derivative_monitors(run)
+        translation_invariance(run)
     run.rule = ('lattice edge cases (families: odometry R2/R3/SE2/SE3, landmark SE2->R2, SE3->R3, Rn->Rn with offsets) generated from VERIF_SEED; '
                 'TLC evaluates error and Jacobian by dual numbers exactly; non-trivial = distinct case whose exact Jacobian has a non-zero '
                 'entry outside the identity pattern (i.e. depends on the operands)')
